@@ -112,7 +112,7 @@ func TestVerifC06Parser(t *testing.T) {
 		x := verifkit.XorShift(verifkit.Seed())
 		for i := 0; i < 55; i++ {
 			chunks := int(x.Next()%200) + 1
-			c := c06Side{id: fmt.Sprintf("%x", x.Next())[:int(x.Next()%17)], chunk: uint32(x.Next()%5000 + 1)}
+			c := c06Side{id: fmt.Sprintf("%016x", x.Next())[:int(x.Next()%17)], chunk: uint32(x.Next()%5000 + 1)}
 			c.size = int64(chunks-1)*int64(c.chunk) + int64(x.Next()%uint64(c.chunk)) + 1
 			for j := 0; j < chunks; j++ {
 				if x.Next()%3 == 0 {
